@@ -15,6 +15,10 @@ package main
 // the excerpt of every entity. After the live cache is closed, each set of files is put back and the repository is
 // opened through the normal path (the files are loaded, nothing is rebuilt): the excerpts so loaded must be those
 // of the entities (bugs with staged operations excepted), the last set also those of the cache rebuilt from git.
+// Per commit of every bug the lamport edit time is read back as well: it must increase along the chain (flavour fresh
+// starts from a repository without any bug, where the clocks of the bugs do not exist yet). Flavour lru: barrier-stepped
+// runs on a bounded cache in which a handle in use is provably among the most recently used bugs (c18Bounded): a hang
+// there is not the by-design wait for an evicted handle.
 // The schedule is not observable: coq/K_C18.v decides whether the outcome is one the model allows.
 
 import (
@@ -49,6 +53,7 @@ type c18Call struct {
 	Commit bool   `json:"commit,omitempty"`
 	Prefix bool   `json:"prefix,omitempty"` // resolve through ResolvePrefix (as the web UI does)
 	N      int    `json:"n,omitempty"`      // query / querys / allids: number of repetitions (default 1)
+	Pause  int    `json:"pause,omitempty"`  // edit: number of barriers the goroutine passes between its Resolve and the edit (it keeps the handle meanwhile)
 }
 
 type c18Input struct {
@@ -63,6 +68,7 @@ type c18Input struct {
 	Authors   int         `json:"authors,omitempty"`   // flavour rebuild: identities, each the author of Shared bugs
 	FastDisk  bool        `json:"fast_disk,omitempty"` // put the repository on a memory file system (/dev/shm) when there is one: many more rounds per second
 	BudgetMs  int         `json:"budget_ms,omitempty"` // flavour persist: once the goroutines have run for so long, the remaining edits are skipped (slow disks)
+	Reps      int         `json:"reps,omitempty"`      // the run is repeated, each time on a new repository, up to so many times; the first repetition that hangs or stores anything wrong (else the last one) is the observation
 }
 
 type c18Driver struct{}
@@ -180,7 +186,244 @@ func c18GenPersist(r *Rand, big bool) c18Input {
 	return in
 }
 
+// flavour fresh: a repository that was just created: one identity, no bug yet, hence no lamport clock of the bugs
+// (bugs-create / bugs-edit are created by the first commit of a bug) and no index. 8-16 goroutines, released by one
+// barrier, create their first bug at once and then edit it once or twice, every edit committed: the first uses of
+// whatever the repository creates on demand race with each other and with the first commits. One goroutine in three
+// polls the bug list before it starts, so that not everybody arrives at the same moment. On the disk of the
+// machine, not on a memory file system: creating a file takes long enough there for the others to get on.
+// The run is repeated on a new repository up to three times: the first repetition that hangs or stores anything wrong,
+// else the last one, is observed in full and reported.
+func c18GenFresh(r *Rand, big bool) c18Input {
+	in := c18Input{Flavor: "fresh", Shared: 0}
+	in.Procs = []int{1, 1, 4, 4, 16, 2}[r.Intn(6)]
+	in.Reps = 3
+	nth := r.Range(12, 16)
+	if big {
+		nth = r.Range(14, 20)
+	}
+	edits := r.Range(1, 2)
+	for t := 0; t < nth; t++ {
+		calls := []c18Call{{K: "barrier", B: -1}}
+		if r.Chance(1, 3) {
+			calls = append(calls, c18Call{K: "allids", B: -1, N: r.Range(1, 40)})
+		}
+		calls = append(calls, c18Call{K: "new", B: -1})
+		for k := 0; k < edits; k++ {
+			calls = append(calls, c18Call{K: "edit", B: -1, Op: c18EditOps[r.Intn(len(c18EditOps))], Commit: true})
+		}
+		in.Threads = append(in.Threads, calls)
+	}
+	return in
+}
+
+// flavour lru: the cache may hold c bugs, there are more bugs than that, and at most c goroutines. The run is a
+// sequence of steps separated by barriers; in every step ONE goroutine does something to a bug, the others wait
+// (or run queries, which do not load anything):
+//
+//	hold  a goroutine resolves a bug (mostly the least recently used loaded one) and keeps the handle;
+//	load  a goroutine without a handle resolves another bug (mostly one that is not loaded: somebody is evicted);
+//	use   a goroutine that holds a handle edits the bug through it and commits.
+//
+// Between the hold and the use of a handle the other goroutines resolve at most c-1 distinct other bugs, nothing is
+// staged when a bug is loaded, every goroutine holds at most one handle: the bug was the most recently used one
+// when its handle was taken, so it cannot be among those the cache evicts (c18Bounded checks this on the input).
+// Waiting for ever on such a handle is therefore NOT the by-design behaviour "more entities in use than the cache
+// may hold" (finding F-evicted-handle): it is a deadlock.
+func c18GenLru(r *Rand, big bool) c18Input {
+	in := c18Input{Flavor: "lru", FastDisk: true}
+	in.Procs = []int{1, 2, 4, 16}[r.Intn(4)]
+	c := r.Range(2, 4)
+	in.CacheSize = c
+	n := c + r.Range(1, 3)
+	in.Shared = n
+	nth := r.Range(2, c)
+	in.Reopen = r.Bool()
+	steps := r.Range(8, 14)
+	if big {
+		steps = r.Range(12, 20)
+	}
+	// the list of loaded bugs as the (unchanged) cache keeps it, least recently used first
+	var lru []int
+	if !in.Reopen {
+		for b := n - c; b < n; b++ {
+			lru = append(lru, b)
+		}
+	}
+	touch := func(b int) {
+		var l []int
+		for _, x := range lru {
+			if x != b {
+				l = append(l, x)
+			}
+		}
+		lru = append(l, b)
+		if len(lru) > c {
+			lru = lru[len(lru)-c:]
+		}
+	}
+	loaded := func(b int) bool {
+		for _, x := range lru {
+			if x == b {
+				return true
+			}
+		}
+		return false
+	}
+	type hold struct {
+		bug     int
+		call    int          // index of the edit call in the goroutine's program
+		touched map[int]bool // other bugs resolved (or about to be used) since the handle was taken
+	}
+	holds := map[int]*hold{}
+	heldBy := func(b int) bool {
+		for _, h := range holds {
+			if h.bug == b {
+				return true
+			}
+		}
+		return false
+	}
+	// may bug b be touched now? every handle in use must stay among the c-1 most recent other bugs
+	allowed := func(b int, by int) bool {
+		for g, h := range holds {
+			if g == by || h.bug == b || h.touched[b] {
+				continue
+			}
+			if len(h.touched)+1 > c-1 {
+				return false
+			}
+		}
+		return true
+	}
+	note := func(b int, by int) {
+		for g, h := range holds {
+			if g != by && h.bug != b {
+				h.touched[b] = true
+			}
+		}
+	}
+	in.Threads = make([][]c18Call, nth)
+	ops := []string{"comment", "title", "label", "comment", "close", "open", "body"}
+	step := func(actor int, call *c18Call) {
+		// everybody passes the barrier that ends the previous step; a goroutine that holds a handle does so inside its edit call
+		for g := 0; g < nth; g++ {
+			if h, ok := holds[g]; ok {
+				in.Threads[g][h.call].Pause++
+			} else {
+				in.Threads[g] = append(in.Threads[g], c18Call{K: "barrier", B: -1})
+			}
+		}
+		if call != nil {
+			in.Threads[actor] = append(in.Threads[actor], *call)
+		}
+		for g := 0; g < nth; g++ {
+			if _, ok := holds[g]; !ok && g != actor && r.Chance(1, 4) {
+				in.Threads[g] = append(in.Threads[g], c18Call{K: []string{"queryq", "allids", "querys"}[r.Intn(3)], B: 0, Op: "shared"})
+			}
+		}
+	}
+	if in.Reopen {
+		// warm the cache up: one goroutine resolves c bugs in a row
+		g := r.Intn(nth)
+		perm := make([]int, n)
+		for i := range perm {
+			perm[i] = i
+		}
+		for i := n - 1; i > 0; i-- {
+			j := r.Intn(i + 1)
+			perm[i], perm[j] = perm[j], perm[i]
+		}
+		for _, b := range perm[:c] {
+			step(g, &c18Call{K: "resolve", B: b})
+			touch(b)
+		}
+	}
+	for k := 0; k < steps || len(holds) > 0; k++ {
+		var free, holders []int
+		for g := 0; g < nth; g++ {
+			if _, ok := holds[g]; ok {
+				holders = append(holders, g)
+			} else {
+				free = append(free, g)
+			}
+		}
+		closing := k >= steps
+		x := r.Intn(100)
+		switch {
+		case !closing && len(free) > 0 && (len(holders) == 0 || x < 25):
+			// hold: mostly the least recently used loaded bug nobody holds
+			g := free[r.Intn(len(free))]
+			b := -1
+			if r.Chance(3, 4) {
+				for _, y := range lru {
+					if !heldBy(y) {
+						b = y
+						break
+					}
+				}
+			}
+			if b < 0 {
+				b = r.Intn(n)
+			}
+			if heldBy(b) || !allowed(b, g) {
+				step(-1, nil)
+				continue
+			}
+			h := &hold{bug: b, call: len(in.Threads[g]) + 1, touched: map[int]bool{}}
+			for _, o := range holds {
+				h.touched[o.bug] = true // the others will use theirs
+			}
+			if len(h.touched) > c-1 {
+				step(-1, nil)
+				continue
+			}
+			note(b, g)
+			step(g, &c18Call{K: "edit", B: b, Op: ops[r.Intn(len(ops))], Commit: true, Prefix: r.Chance(1, 4)})
+			holds[g] = h
+			touch(b)
+		case !closing && len(free) > 0 && len(holders) > 0 && x < 70:
+			// load: mostly a bug that is not loaded
+			g := free[r.Intn(len(free))]
+			b := -1
+			for try := 0; try < 8 && b < 0; try++ {
+				y := r.Intn(n)
+				if heldBy(y) || (loaded(y) && !r.Chance(1, 5)) {
+					continue
+				}
+				b = y
+			}
+			if b < 0 || !allowed(b, g) {
+				// no room left: somebody has to use its handle first
+				g2 := holders[r.Intn(len(holders))]
+				step(-1, nil)
+				touch(holds[g2].bug)
+				delete(holds, g2)
+				continue
+			}
+			note(b, g)
+			step(g, &c18Call{K: "resolve", B: b, Prefix: r.Chance(1, 4)})
+			touch(b)
+		case len(holders) > 0:
+			// use: the barrier of this step is the last one inside the edit call of the holder
+			g := holders[r.Intn(len(holders))]
+			step(-1, nil)
+			touch(holds[g].bug)
+			delete(holds, g)
+		default:
+			step(-1, nil)
+		}
+	}
+	return in
+}
+
 func c18GenCase(r *Rand, flavor string, big bool) c18Input {
+	if flavor == "fresh" {
+		return c18GenFresh(r, big)
+	}
+	if flavor == "lru" {
+		return c18GenLru(r, big)
+	}
 	if flavor == "persist" {
 		return c18GenPersist(r, big)
 	}
@@ -262,21 +505,88 @@ func c18GenCase(r *Rand, flavor string, big bool) c18Input {
 	return in
 }
 
+// c18Bounded: does the input, by its construction, keep every handle in use among the bugs the cache may hold?
+//   - the cache may hold c >= 2 bugs and there are at most c goroutines, each holding at most one handle at a time
+//     (a handle lives inside one edit call: Resolve, Pause barriers, edit, Commit);
+//   - the goroutines move in steps (a step ends when all of them have passed a barrier); in every step the calls that
+//     resolve, edit or commit a bug belong to ONE goroutine: nothing is staged while somebody else loads a bug;
+//   - between the step in which a handle is taken and the step in which it is used, the other goroutines resolve at
+//     most c-1 distinct other bugs.
+//
+// Resolve makes the bug the most recently used one, every later load evicts from the least recently used end and
+// stops as soon as c bugs are left: the bug of a handle in use is never evicted (CacheLru.recent_handle_survives).
+func c18Bounded(in c18Input) bool {
+	c := in.CacheSize
+	if c < 2 || len(in.Threads) > c || len(in.Threads) < 1 {
+		return false
+	}
+	type ev struct{ step, thread, bug int }
+	var evs []ev
+	type span struct{ from, to, thread, bug int }
+	var spans []span
+	for t, calls := range in.Threads {
+		st := 0
+		for _, call := range calls {
+			switch call.K {
+			case "barrier":
+				st++
+			case "query", "queryq", "querys", "allids":
+			case "resolve":
+				if call.B < 0 || call.B >= in.Shared {
+					return false
+				}
+				evs = append(evs, ev{st, t, call.B})
+			case "edit":
+				if call.B < 0 || call.B >= in.Shared || !call.Commit || call.Pause < 0 {
+					return false
+				}
+				evs = append(evs, ev{st, t, call.B})
+				spans = append(spans, span{st, st + call.Pause, t, call.B})
+				st += call.Pause
+				evs = append(evs, ev{st, t, call.B})
+			default:
+				return false
+			}
+		}
+	}
+	owner := map[int]int{}
+	for _, e := range evs {
+		if o, ok := owner[e.step]; ok && o != e.thread {
+			return false
+		}
+		owner[e.step] = e.thread
+	}
+	for _, sp := range spans {
+		others := map[int]bool{}
+		for _, e := range evs {
+			if e.thread != sp.thread && e.step >= sp.from && e.step <= sp.to && e.bug != sp.bug {
+				others[e.bug] = true
+			}
+		}
+		if len(others) > c-1 {
+			return false
+		}
+	}
+	return len(spans) > 0
+}
+
 func (c18Driver) Gen(r *Rand, tier string) []json.RawMessage {
 	// quick: about 60 stress runs; thorough: 18x more and up to 16 goroutines
 	plan := []struct {
 		flavor string
 		n      int
-	}{{"mixed", 10}, {"reopen", 14}, {"evict", 12}, {"query", 10}, {"tiny", 4}, {"burst", 5}, {"churn", 4}, {"persist", 10}}
+	}{{"mixed", 10}, {"reopen", 14}, {"evict", 12}, {"query", 10}, {"tiny", 4}, {"burst", 5}, {"churn", 4}, {"persist", 10}, {"fresh", 4}, {"lru", 6}}
 	mult := 1
 	if tier == "thorough" {
 		mult = 18
 	}
-	var res, persist []json.RawMessage
+	var res, persist, fresh []json.RawMessage
 	for _, p := range plan {
 		for i := 0; i < p.n*mult; i++ {
 			c := mustJSON(c18GenCase(r, p.flavor, tier == "thorough" || i%4 == 0))
-			if p.flavor == "persist" {
+			if p.flavor == "fresh" {
+				fresh = append(fresh, c)
+			} else if p.flavor == "persist" {
 				persist = append(persist, c)
 			} else {
 				res = append(res, c)
@@ -284,8 +594,9 @@ func (c18Driver) Gen(r *Rand, tier string) []json.RawMessage {
 		}
 	}
 	// the persist cases are long lists of calls, the most expensive ones to evaluate in Coq: spread them evenly over
-	// the run (hence over the shards, which are evaluated in parallel); generated last, so that the cases of the
-	// other flavours are the ones the same seed gave before
+	// the run (hence over the shards, which are evaluated in parallel); generated after the older flavours, so that
+	// the cases of those are the ones the same seed gave before. The fresh cases (up to three repetitions on the disk
+	// of the machine) take longest to run: they go first, so that the rest of the run overlaps with them.
 	var merged []json.RawMessage
 	np, no, j := len(persist), len(res), 0
 	for i, c := range res {
@@ -296,7 +607,16 @@ func (c18Driver) Gen(r *Rand, tier string) []json.RawMessage {
 		}
 	}
 	merged = append(merged, persist[j:]...)
-	return merged
+	// (every third case from the start: the runner hands out the cases in small contiguous chunks)
+	var all []json.RawMessage
+	for i, c := range merged {
+		if i%3 == 0 && len(fresh) > 0 {
+			all = append(all, fresh[0])
+			fresh = fresh[1:]
+		}
+		all = append(all, c)
+	}
+	return append(all, fresh...)
 }
 
 // ---- running ----
@@ -698,11 +1018,18 @@ func (s *c18Run) worker(t int, start <-chan struct{}, wg *sync.WaitGroup) {
 			}
 		case "edit":
 			if target == "" || s.cut.Load() {
+				for p := 0; p < call.Pause; p++ {
+					c18BarrierWait(s.bar)
+				}
 				rec.Done = true
 				continue
 			}
 			rec.Bug = target.String()
 			b, err := s.resolve(target, call.Prefix)
+			// the goroutine keeps the handle while the others go on (steps of the run: see c18GenLru)
+			for p := 0; p < call.Pause; p++ {
+				c18BarrierWait(s.bar)
+			}
 			if err != nil {
 				fail(err)
 				break
@@ -1030,9 +1357,10 @@ func c18Diff(live, rebuilt c18View) []string {
 
 // the history of one bug as stored in git
 type c18Stored struct {
-	Packs   [][]string `json:"packs"` // root first
-	Chain   bool       `json:"chain"` // one root, every other commit exactly one parent
-	Read    []string   `json:"read"`  // bug.Read
+	Packs   [][]string `json:"packs"`      // root first
+	Times   []uint64   `json:"edit_times"` // the lamport edit time stored with each commit, root first
+	Chain   bool       `json:"chain"`      // one root, every other commit exactly one parent
+	Read    []string   `json:"read"`       // bug.Read
 	ReadErr string     `json:"read_err,omitempty"`
 }
 
@@ -1052,6 +1380,7 @@ func c18ReadStored(repo repository.ClockedRepo, id entity.Id) c18Stored {
 			break
 		}
 		st.Packs = append([][]string{wc.Ops}, st.Packs...)
+		st.Times = append([]uint64{wc.Edit}, st.Times...)
 		if len(parents) == 0 {
 			break
 		}
@@ -1089,11 +1418,96 @@ type c18Obs struct {
 	TotalMs    int64                `json:"total_ms"` // set-up, goroutines, flush, observations, rebuild
 }
 
+// what makes a repetition the one to report
+var c18Wrong = map[string]bool{"stuck": true, "lost-ack": true, "bad-history": true, "incoherent": true, "stale-excerpt": true,
+	"saved-stale": true, "err:panic": true, "err:unfinished": true}
+
 func (c18Driver) Run(raw json.RawMessage) Case {
 	var in c18Input
-	if err := json.Unmarshal(raw, &in); err != nil || len(in.Threads) == 0 || in.Shared < 1 {
+	if err := json.Unmarshal(raw, &in); err != nil || len(in.Threads) == 0 || in.Shared < 0 || (in.Shared < 1 && in.Flavor != "fresh") {
 		return Case{Skip: "bad input"}
 	}
+	var c Case
+	for rep := 0; rep < in.Reps || rep == 0; rep++ {
+		var again bool
+		c, again = c18RunOnce(in, raw, rep+1 >= in.Reps)
+		if again {
+			continue
+		}
+		if c.Skip != "" {
+			return c
+		}
+		if in.Reps > 1 {
+			c.Tags = append(c.Tags, fmt.Sprintf("repetition:%d", rep+1))
+			sort.Strings(c.Tags)
+		}
+		wrong := false
+		for _, t := range c.Tags {
+			if c18Wrong[t] {
+				wrong = true
+			}
+		}
+		if wrong {
+			break
+		}
+	}
+	return c
+}
+
+// A repetition that is not the last one is only looked at closely when something is wrong with what it stored: the
+// goroutines finished, every acknowledged operation is in git exactly once, every history is a chain that reads back
+// with increasing edit times: the repetition is dropped (second result true) and the next one starts.
+func (s *c18Run) nothingWrongStored(calls []c18Rec, bugIDs map[string]bool) bool {
+	r2, err := repository.OpenGoGitRepo(s.dir, "git-bug", nil)
+	if err != nil {
+		return false
+	}
+	defer r2.Close()
+	stored := map[string]c18Stored{}
+	for id := range bugIDs {
+		st := c18ReadStored(r2, entity.Id(id))
+		if !st.Chain || st.ReadErr != "" {
+			return false
+		}
+		n := 0
+		for _, p := range st.Packs {
+			n += len(p)
+		}
+		if n != len(st.Read) {
+			return false
+		}
+		for i := 1; i < len(st.Times); i++ {
+			if st.Times[i] <= st.Times[i-1] {
+				return false
+			}
+		}
+		stored[id] = st
+	}
+	for _, r := range calls {
+		call := s.in.Threads[r.T][r.K]
+		if r.EditE == c18Panic {
+			return false
+		}
+		acked := r.OpID != "" && r.EditE == c18OK && (call.K == "new" || (call.K == "edit" && call.Commit && (r.CommE == c18OK || r.CommE == c18NoPending)))
+		if !acked {
+			continue
+		}
+		n := 0
+		for _, p := range stored[r.Bug].Packs {
+			for _, o := range p {
+				if o == r.OpID {
+					n++
+				}
+			}
+		}
+		if n != 1 {
+			return false
+		}
+	}
+	return true
+}
+
+func c18RunOnce(in c18Input, raw json.RawMessage, last bool) (Case, bool) {
 	ncalls := 0
 	for _, th := range in.Threads {
 		for _, c := range th {
@@ -1103,7 +1517,7 @@ func (c18Driver) Run(raw json.RawMessage) Case {
 		}
 	}
 	if ncalls >= 1000 {
-		return Case{Skip: "too many calls: operation numbers would collide with those of the create operations"}
+		return Case{Skip: "too many calls: operation numbers would collide with those of the create operations"}, false
 	}
 	if in.Procs < 1 {
 		in.Procs = 1
@@ -1116,7 +1530,7 @@ func (c18Driver) Run(raw json.RawMessage) Case {
 		if s.dir != "" {
 			os.RemoveAll(s.dir)
 		}
-		return Case{Skip: "setup: " + err.Error()}
+		return Case{Skip: "setup: " + err.Error()}, false
 	}
 	t0 := time.Now()
 	s.recs = make([][]c18Rec, len(in.Threads))
@@ -1252,6 +1666,12 @@ wait:
 		}
 	}
 
+	if !last && !obs.Stuck && s.nothingWrongStored(calls, bugIDs) {
+		_ = s.c.Close()
+		os.RemoveAll(s.dir)
+		return Case{}, true
+	}
+
 	obs.Flush = map[string]string{}
 	flushClass := map[string]int{}
 	var live c18View
@@ -1334,7 +1754,7 @@ wait:
 		os.RemoveAll(s.dir)
 	}
 	obs.TotalMs = time.Since(tStart).Milliseconds()
-	return c18Render(in, raw, s, obs, flushClass)
+	return c18Render(in, raw, s, obs, flushClass), false
 }
 
 func c18Render(in c18Input, raw json.RawMessage, s *c18Run, obs c18Obs, flushClass map[string]int) Case {
@@ -1420,7 +1840,14 @@ func c18Render(in c18Input, raw json.RawMessage, s *c18Run, obs c18Obs, flushCla
 			}
 			read = coqSome(coqNats(xs))
 		}
-		bugTerms = append(bugTerms, fmt.Sprintf("mkbug %d %s %s %s", bugNo[id], coqList(packs), coqBool(st.Chain), read))
+		times := make([]int, len(st.Times))
+		for i, x := range st.Times {
+			times[i] = int(x)
+			if x > 20000 {
+				times[i] = 20000 // (never seen: a run makes some hundred commits; unary numbers in Coq)
+			}
+		}
+		bugTerms = append(bugTerms, fmt.Sprintf("mkbug %d %s %s %s %s", bugNo[id], coqList(packs), coqBool(st.Chain), read, coqNats(times)))
 		flushTerms = append(flushTerms, coqPair(coqNat(bugNo[id]), coqNat(flushClass[id])))
 	}
 	evict := 0
@@ -1429,6 +1856,10 @@ func c18Render(in c18Input, raw json.RawMessage, s *c18Run, obs c18Obs, flushCla
 		if in.CacheSize < len(in.Threads) {
 			evict = 2
 		}
+	}
+	bounded := c18Bounded(in)
+	if bounded {
+		evict = 3 // something is evicted, but never the bug of a handle in use
 	}
 	// the bugs whose excerpt was stale once the goroutines were done (0: a bug no call of the run knows)
 	staleIDs := map[string]bool{}
@@ -1454,6 +1885,12 @@ func c18Render(in c18Input, raw json.RawMessage, s *c18Run, obs c18Obs, flushCla
 	tags := []string{"flavor:" + in.Flavor, fmt.Sprintf("procs:%d", in.Procs), fmt.Sprintf("n:goroutines:%d", len(in.Threads)), fmt.Sprintf("evict:%d", evict)}
 	if in.Reopen {
 		tags = append(tags, "reopen")
+	}
+	if bounded {
+		tags = append(tags, "lru-bounded")
+	}
+	if in.Shared == 0 {
+		tags = append(tags, "fresh-repository")
 	}
 	if s.tmpfs {
 		tags = append(tags, "disk:tmpfs")
@@ -1598,6 +2035,7 @@ func c18Render(in c18Input, raw json.RawMessage, s *c18Run, obs c18Obs, flushCla
 			lost = true
 		}
 	}
+	clockBad := false
 	for _, st := range obs.Stored {
 		var flat []string
 		for _, p := range st.Packs {
@@ -1606,6 +2044,14 @@ func c18Render(in c18Input, raw json.RawMessage, s *c18Run, obs c18Obs, flushCla
 		if !st.Chain || st.ReadErr != "" || strings.Join(flat, ",") != strings.Join(st.Read, ",") {
 			bad = true
 		}
+		for i := 1; i < len(st.Times); i++ {
+			if st.Times[i] <= st.Times[i-1] {
+				bad, clockBad = true, true
+			}
+		}
+	}
+	if clockBad {
+		tags = append(tags, "edit-times-not-increasing")
 	}
 	if lost {
 		tags = append(tags, "lost-ack")
